@@ -23,7 +23,10 @@ class GlobalStateMonitor:
 
     def arm(self):
         np.random.seed(self.poison % (2**32))
+        np.random.normal()  # leaves a cached second Gaussian in the legacy global state (has_gauss=1): swapping the
+        # global bit generator in and out silently drops it, which a bare seed() would not show
         random.seed(self.poison)
+        random.gauss(0.0, 1.0)
         self.np0 = tape.digest_obj(list(np.random.get_state()))
         self.py0 = tape.digest_obj(repr(random.getstate()))
         self.bg0 = id(np.random.get_bit_generator())
